@@ -124,6 +124,19 @@ Definition log_store (st : store) (lim : nat) (ob k : val) (changed : bool) (log
   | _ => log
   end.
 
+(* the ordered STORE TRACE: every attribute assignment (also one that rebinds the same object) to a class instance
+   (CaptionSet / CaptionList / Caption / CaptionNode) that existed when the last deepcopy returned, as (1000 + kind, slot);
+   kept in the same list as the footprint entries (which have kind < 1000), newest first *)
+Definition trace_store (st : store) (lim : nat) (ob k : val) (log : fp) : fp :=
+  match ob with
+  | VLoc l =>
+      let kd := kind_of st ob in
+      if Nat.ltb l lim && (2 <=? kd) && (kd <=? 5) then (1000 + kd, slot_code st ob k) :: log else log
+  | _ => log
+  end.
+Definition fp_of (l : fp) : fp := filter (fun p => fst p <? 1000) l.
+Definition trace_of (l : fp) : fp := rev (filter (fun p => 1000 <=? fst p) l).
+
 Definition sel_items (elems_only : bool) (its : list (val * val)) : list (val * val) :=
   if elems_only then filter (fun kv => match fst kv with VNone => true | _ => false end) its else its.
 
@@ -153,7 +166,8 @@ Fixpoint exec (o : wopts) (c : cmd) (h : hstate) : hstate * option err :=
   | CSet x k e =>
       let ob := env x in let kv := ev o env k in let nv := ev o env e in
       (mkH (set_field st ob kv nv) env (h_lim h)
-           (log_store st (h_lim h) ob kv (negb (has_field st ob kv && val_eqb (field st ob kv) nv)) (h_log h))
+           (log_store st (h_lim h) ob kv (negb (has_field st ob kv && val_eqb (field st ob kv) nv))
+                      (trace_store st (h_lim h) ob kv (h_log h)))
            (h_copies h) (h_out h), None)
   | CDel x k =>
       let ob := env x in let kv := ev o env k in
